@@ -1231,6 +1231,45 @@ def _writer_presence(ctx, repo):
                     ctx.ob('C16.j', f'{m.name}.{fn.name}:{ast.unparse(st.targets[0])}', not bad, '' if not bad else
                            f'`if {ast.unparse(test)}:` decides whether the {f["type"]} field {ast.unparse(st.targets[0])} is written: a value of 0 is treated as absent and read back as None/default',
                            m.rel, i_.lineno)
+    # the same through a writer function: `if v: something_to_proto(v, out=...)` where v is a numeric attribute of a value class
+    numeric_attr = {}
+    for ci in repo.classes.values():
+        if not ci.qual.startswith(('cirq.', 'cirq_google.')) or '.testing.' in ci.qual:
+            continue
+        for nm_, ann in list(ci.assigns.items()):
+            pass
+        for st in ci.node.body:
+            if isinstance(st, ast.AnnAssign) and isinstance(st.target, ast.Name):
+                t_ = ast.unparse(st.annotation)
+                numeric_attr.setdefault(st.target.id, set()).add(t_)
+        init = ci.methods.get('__init__')
+        if init is not None:
+            for a in init.args.args[1:] + init.args.kwonlyargs:
+                if a.annotation is not None:
+                    numeric_attr.setdefault(a.arg, set()).add(ast.unparse(a.annotation))
+
+    def is_numeric_attr(name):
+        anns = numeric_attr.get(name, set())
+        return bool(anns) and all(any(tok in x for tok in ('int', 'float', 'complex', 'TParamVal')) and 'str' not in x and 'Sequence' not in x and 'list' not in x.lower() for x in anns)
+    for m in sorted(repo.modules.values(), key=lambda x: x.rel):
+        if not m.rel.startswith(('cirq-google/cirq_google/api/', 'cirq-google/cirq_google/serialization/')) or m.rel.endswith('_test.py') or '_pb2' in m.rel:
+            continue
+        for fn in [f for f in ast.walk(m.tree) if isinstance(f, ast.FunctionDef)]:
+            for i_ in ast.walk(fn):
+                if not isinstance(i_, ast.If):
+                    continue
+                for st in i_.body:
+                    calls = [c for c in ast.walk(st) if isinstance(c, ast.Call) and (call_name(c) or '').split('.')[-1].endswith('_to_proto') and c.args]
+                    for c in calls:
+                        v = c.args[0]
+                        if not (isinstance(v, ast.Attribute) and is_numeric_attr(v.attr)):
+                            continue
+                        n += 1
+                        test = i_.test
+                        bad = isinstance(test, ast.Attribute) and ast.unparse(test) == ast.unparse(v)
+                        ctx.ob('C16.j', f'{m.name}.{fn.name}:{ast.unparse(v)}->{(call_name(c) or "").split(".")[-1]}', not bad, '' if not bad else
+                               f'`if {ast.unparse(test)}:` decides whether the numeric attribute {ast.unparse(v)} is written at all: 0 is a legal value and is dropped (read back as None)',
+                               m.rel, i_.lineno)
     if n == 0:
         raise AnalysisError('C16.j: no conditional store into a numeric proto field found')
 
